@@ -23,6 +23,7 @@ RULE = ("Generated: one asset under test - SimpleContract / Contract (with and w
         "rate inside every coarse interval / repeats with the period; set-up and optimisation raise nothing. "
         "Non-trivial: the equalities bind (V_ref below the unconstrained fine optimum) and the asset has non-zero "
         "dispatch. Distinct = distinct spec hash.")
+RULE += (' Plant / CHP with periodicity: known finding D59 (class excluded from generation, replay listed).')
 ASSUMPTIONS = ["uniform step length, scalar limits and wacc = 0 on the coarse / periodic asset (EAO averages prices unweighted "
                "and discounts a merged variable once - documented averaging)",
                "no holding cost on a coarse storage (level is evaluated at coarse step ends by definition of the coarse variables)",
